@@ -12,6 +12,7 @@
 package main
 
 import (
+	"bytes"
 	"context"
 	"encoding/hex"
 	"encoding/json"
@@ -64,6 +65,7 @@ type EngineRound struct {
 	Sequential []bool   `json:"sequential"`
 	Race       string   `json:"race,omitempty"`
 	Deadlock   bool     `json:"deadlock,omitempty"`
+	Bad        []string `json:"bad,omitempty"`
 }
 
 type Result struct {
@@ -550,11 +552,16 @@ func keyFor(r *common.Rand) *bec.PrivateKey {
 }
 
 // p2pkhJob builds a signed 1..3-input P2PKH transaction; variant decides what is broken.
-func p2pkhJobs(r *common.Rand) []job {
+func p2pkhJobs(r *common.Rand, sw *sharedWallet) []job {
 	key := keyFor(r)
 	lock, err := bscript.NewP2PKHFromPubKeyBytes(key.PubKey().SerialiseCompressed())
 	if err != nil {
 		panic(err)
+	}
+	if sw != nil && r.Chance(35) {
+		// a wallet that keeps ONE script object per address: different transactions (validated by different goroutines)
+		// name the same *bscript.Script as the locking script of the outputs they spend
+		key, lock = sw.key, sw.lock
 	}
 	nin := 1 + r.Intn(3)
 	tx := bt.NewTx()
@@ -617,6 +624,84 @@ func p2pkhJobs(r *common.Rand) []job {
 		}})
 	}
 	return jobs
+}
+
+// sharedWallet: script objects that several transactions of one round refer to.
+type sharedWallet struct {
+	key, keyB    *bec.PrivateKey
+	lock, csLock *bscript.Script
+	csAfter      *bscript.Script // what follows the OP_CODESEPARATOR of csLock
+	lock0, cs0   []byte
+}
+
+func newSharedWallet(r *common.Rand) *sharedWallet {
+	sw := &sharedWallet{key: keyFor(r), keyB: keyFor(r)}
+	var err error
+	if sw.lock, err = bscript.NewP2PKHFromPubKeyBytes(sw.key.PubKey().SerialiseCompressed()); err != nil {
+		panic(err)
+	}
+	// <keyA> OP_CHECKSIGVERIFY OP_CODESEPARATOR <keyB> OP_CHECKSIG: the second signature is over the script after the separator
+	sw.csLock, sw.csAfter = &bscript.Script{}, &bscript.Script{}
+	_ = sw.csLock.AppendPushData(sw.key.PubKey().SerialiseCompressed())
+	_ = sw.csLock.AppendOpcodes(bscript.OpCHECKSIGVERIFY, bscript.OpCODESEPARATOR)
+	_ = sw.csLock.AppendPushData(sw.keyB.PubKey().SerialiseCompressed())
+	_ = sw.csLock.AppendOpcodes(bscript.OpCHECKSIG)
+	_ = sw.csAfter.AppendPushData(sw.keyB.PubKey().SerialiseCompressed())
+	_ = sw.csAfter.AppendOpcodes(bscript.OpCHECKSIG)
+	sw.lock0, sw.cs0 = append([]byte{}, *sw.lock...), append([]byte{}, *sw.csLock...)
+	return sw
+}
+
+func (sw *sharedWallet) changed() []string {
+	var bad []string
+	if !bytes.Equal(*sw.lock, sw.lock0) {
+		bad = append(bad, fmt.Sprintf("the P2PKH locking script object shared by several transactions reads %x after the round, it was %x", []byte(*sw.lock), sw.lock0))
+	}
+	if !bytes.Equal(*sw.csLock, sw.cs0) {
+		bad = append(bad, fmt.Sprintf("the OP_CODESEPARATOR locking script object shared by several transactions reads %x after the round, it was %x", []byte(*sw.csLock), sw.cs0))
+	}
+	return bad
+}
+
+// codesepJobs: a one-input transaction spending an output locked by the shared <A> CHECKSIGVERIFY CODESEPARATOR <B> CHECKSIG
+// script object; every second one carries a wrong second signature.
+func codesepJobs(r *common.Rand, sw *sharedWallet) []job {
+	sats := 1000 + uint64(r.Intn(100000))
+	tx := bt.NewTx()
+	if err := tx.From(hex.EncodeToString(r.Bytes(32)), uint32(r.Intn(4)), sw.csLock.String(), sats); err != nil {
+		panic(err)
+	}
+	if err := tx.PayTo(sw.lock, 500+uint64(r.Intn(400))); err != nil {
+		panic(err)
+	}
+	sign := func(key *bec.PrivateKey, code *bscript.Script) []byte {
+		cp := tx.Clone()
+		cc := append(bscript.Script{}, *code...)
+		cp.Inputs[0].PreviousTxScript, cp.Inputs[0].PreviousTxSatoshis = &cc, sats
+		h, err := cp.CalcInputSignatureHash(0, sighash.AllForkID)
+		if err != nil {
+			panic(err)
+		}
+		sig, err := key.Sign(h)
+		if err != nil {
+			panic(err)
+		}
+		return append(sig.Serialise(), byte(sighash.AllForkID))
+	}
+	sigA, sigB := sign(sw.key, sw.csLock), sign(sw.keyB, sw.csAfter)
+	kind := "codeseparator/valid"
+	if r.Bool() {
+		sigB = sign(sw.keyB, sw.csLock) // signed over the whole script instead of the part after the separator
+		kind = "codeseparator/second-signature-over-whole-script"
+	}
+	unlock := &bscript.Script{}
+	_ = unlock.AppendPushData(sigB)
+	_ = unlock.AppendPushData(sigA)
+	tx.Inputs[0].UnlockingScript = unlock
+	prev := &bt.Output{Satoshis: sats, LockingScript: sw.csLock}
+	return []job{{kind: kind, opts: func() []interpreter.ExecutionOptionFunc {
+		return []interpreter.ExecutionOptionFunc{interpreter.WithTx(tx, 0, prev), interpreter.WithAfterGenesis(), interpreter.WithForkID()}
+	}}}
 }
 
 // multisigJobs: a 2-of-3 bare multisig output spent by a one-input transaction, with keys no execution of this
@@ -734,6 +819,10 @@ func engineRound(seed uint64, sameTx bool) EngineRound {
 	defer runtime.GOMAXPROCS(prev)
 	var jobs []job
 	var unit []int // unit index of every job
+	var sw *sharedWallet
+	if !sameTx {
+		sw = newSharedWallet(r)
+	}
 	target := g * (1 + r.Intn(3))
 	nu0 := 0
 	if !sameTx {
@@ -747,8 +836,10 @@ func engineRound(seed uint64, sameTx bool) EngineRound {
 		var u []job
 		if r.Chance(25) && !sameTx {
 			u = multisigJobs(r)
+		} else if r.Chance(25) && !sameTx {
+			u = codesepJobs(r, sw)
 		} else if r.Chance(60) || sameTx {
-			u = p2pkhJobs(r)
+			u = p2pkhJobs(r, sw)
 		} else {
 			u = []job{scriptJob(r)}
 		}
@@ -811,6 +902,9 @@ func engineRound(seed uint64, sameTx bool) EngineRound {
 		out.Deadlock = true
 	}
 	out.Race = newRaces()
+	if sw != nil {
+		out.Bad = sw.changed()
+	}
 	if coldStart && !out.Deadlock {
 		sequential()
 	}
